@@ -3,9 +3,9 @@
 (* Trace specification: replays an ndjson log of real tz-rs API calls      *)
 (* (one event per call: op, full arguments a, full observable result r)    *)
 (* through the specification.  The client session has state: the current   *)
-(* zone and the search buffer.  Every event is judged against the set of   *)
+(* vZone and the search buffer.  Every event is judged against the set of   *)
 (* outcomes the specification admits; a disagreeing event does not stop    *)
-(* the replay: it is recorded in `bad` with a cause tag, the state is      *)
+(* the replay: it is recorded in `vBad` with a cause tag, the state is      *)
 (* re-synchronised from the logged outcome and validation goes on.         *)
 (***************************************************************************)
 EXTENDS Find, Json, IOUtils, TLC
@@ -13,12 +13,12 @@ EXTENDS Find, Json, IOUtils, TLC
 Rec == ndJsonDeserialize(IOEnv.TRACE)
 NRec == Len(Rec)
 
-VARIABLES l,      \* next event
-          zone,   \* current zone of the session (UtcZone initially and after a refused construction)
-          buf,    \* the client's search buffer (8 slots), persists from call to call
-          bad,    \* {<<index, tag>>}: disagreements
-          info    \* {<<index, tag>>}: spec-computed facts about zones (used to recognise known findings)
-vars == <<l, zone, buf, bad, info>>
+VARIABLES vL,      \* next event
+          vZone,   \* current vZone of the session (UtcZone initially and after a refused construction)
+          vBuf,    \* the client's search buffer (8 slots), persists from call to call
+          vBad,    \* {<<index, tag>>}: disagreements
+          vInfo    \* {<<index, tag>>}: spec-computed facts about zones (used to recognise known findings)
+vars == <<vL, vZone, vBuf, vBad, vInfo>>
 
 Has(r, k) == k \in DOMAIN r
 EmptyBuf == [i \in 1..8 |-> <<>>]
@@ -59,7 +59,7 @@ VFromNanos(e) ==
   ELSE LET t == WToCDS(sp.q) IN
        IF e.a.via = "utc" THEN WithDt(e.r, Gmtime(t, sp.r), FALSE)
        ELSE IF e.a.via = "local" THEN WithDt(e.r, FromLocal(t, sp.r, e.a.type), TRUE)
-       ELSE WithDt(e.r, Localtime(zone, t, sp.r), TRUE)
+       ELSE WithDt(e.r, Localtime(vZone, t, sp.r), TRUE)
 
 \* ---- C13, C14 ----
 VType(e) ==
@@ -68,10 +68,10 @@ VType(e) ==
   ELSE Judge(e.r, OutOk([off |-> a.off, dst |-> IF a.via = "new" THEN a.dst ELSE 0, des |-> IF a.via = "new" /\ a.nodes = 0 THEN a.des ELSE <<>>]))
 VNewDt(e) == LET a == e.a IN WithDt(e.r, NewDt(a.y, a.mo, a.d, a.h, a.mi, a.s, a.ns, a.type), TRUE)
 VFromLocal(e) == WithDt(e.r, FromLocal(WToCDS(e.a.t), e.a.ns, e.a.type), TRUE)
-VLocaltime(e) == WithDt(e.r, Localtime(zone, WToCDS(e.a.u), e.a.ns), TRUE)
-\* projection keeps (instant, ns) and re-derives fields and type from the target zone
+VLocaltime(e) == WithDt(e.r, Localtime(vZone, WToCDS(e.a.u), e.a.ns), TRUE)
+\* projection keeps (instant, ns) and re-derives fields and type from the target vZone
 VProject(e) ==
-  LET t == WToCDS(e.a.t) lt == Localtime(zone, t, e.a.ns) IN
+  LET t == WToCDS(e.a.t) lt == Localtime(vZone, t, e.a.ns) IN
   IF Has(e.r, "ok") THEN
        (IF e.r.ok.dst \in lt.ok THEN {} ELSE IF lt.ok = {} THEN {"accepted-but-must-fail"} ELSE {"wrong-value"})
        \cup (IF e.r.ok.dst.u = e.r.ok.src.u /\ e.r.ok.dst.ns = e.r.ok.src.ns /\ e.r.ok.src.u = e.a.t THEN {} ELSE {"C14-projection-changed-instant"})
@@ -89,15 +89,17 @@ VRuleDay(e) == IF ValidRuleDay(e.a.d) THEN Judge(e.r, OutOk(e.a.d))
                                           "TransitionRule.InvalidRuleDayWeek", "TransitionRule.InvalidRuleDayWeekDay"}))
 VRule(e) == LET v == RuleVerdict(e.a) IN Judge(e.r, IF v.ok = {} THEN Out({}, v.err) ELSE OutOk(1))
 
-\* ---- C13: zone construction (both constructors are called by the harness; r.ref is the borrowed one's verdict) ----
+\* ---- C13: vZone construction (both constructors are called by the harness; r.ref is the borrowed one's verdict) ----
 ZoneInfo(z) ==
      (IF z.rule.k = "alt" /\ ~Interleaves(z.sum) THEN {"rule-does-not-interleave"} ELSE {})
   \cup (IF z.rule.k = "alt" /\ CoincidentSouth(z.sum) THEN {"coincident-south"} ELSE {})
   \cup (IF z.rule.k = "alt" /\ Degenerate(z.sum) THEN {"degenerate-rule"} ELSE {})
   \cup (IF \E i \in 1..Len(z.lp) : ~Inserted(z.lp, i) THEN {"negative-leap"} ELSE {})
 VZone(e, z) ==
-  LET v == ZoneVerdict(z) r == e.r IN
+  LET v == ZoneVerdict(z) r == e.r
+      rv == IF z.rule.k = "alt" THEN RuleVerdictS(z.rule, z.sum) ELSE OutOk(1) IN
   IF Has(r, "panic") THEN {"panic"} ELSE IF Has(r, "arg") THEN {"generator-error"}
+  ELSE IF rv.ok = {} THEN (IF Has(r, "err") /\ r.err \in rv.err THEN {} ELSE {"C11-rule-accepted-but-must-fail"})   \* the rule itself cannot exist
   ELSE (IF Has(r, "ok")
         THEN (IF v = {} \/ "ok-or" \in v THEN {} ELSE {"C13-accepted-but-must-fail"})
              \cup (IF r.ok.ref = "ok" THEN {} ELSE {"C13-constructors-disagree"})
@@ -106,14 +108,14 @@ VZone(e, z) ==
              \cup (IF r.ref = r.err THEN {} ELSE {"C13-constructors-disagree"}))
 
 \* ---- C03, C04, C12 ----
-VLookup(e) == Judge(e.r, Lookup(zone, WToCDS(e.a.u)))
+VLookup(e) == Judge(e.r, Lookup(vZone, WToCDS(e.a.u)))
 
 \* ---- C05, C06, C17 ----
-VFind(e) == IF Has(e.r, "panic") THEN {"panic"} ELSE FindTags(zone, e.a, e.a.ns, e.r)
+VFind(e) == IF Has(e.r, "panic") THEN {"panic"} ELSE FindTags(vZone, e.a, e.a.ns, e.r)
 VFindN(e) ==
   IF Has(e.r, "panic") THEN {"panic"}
   ELSE IF Has(e.r.res, "panic") \/ Has(e.r.full, "panic") THEN {"panic"}
-  ELSE FindTags(zone, e.a, e.a.ns, e.r.full) \cup FindNTags(buf, e.a.n, e.r)
+  ELSE FindTags(vZone, e.a, e.a.ns, e.r.full) \cup FindNTags(vBuf, e.a.n, e.r)
 
 Verdict(e) ==
   CASE e.op = "gmtime" -> VGmtime(e)
@@ -133,20 +135,20 @@ Verdict(e) ==
     [] e.op = "findn" -> VFindN(e)
     [] OTHER -> {"unknown-op"}
 
-Init == l = 1 /\ zone = UtcZone /\ buf = EmptyBuf /\ bad = {} /\ info = {}
+Init == vL = 1 /\ vZone = UtcZone /\ vBuf = EmptyBuf /\ vBad = {} /\ vInfo = {}
 Step(e) ==
   IF e.op = "zone" THEN
      LET z == MkZone(e.a) tags == VZone(e, z) accepted == Has(e.r, "ok") IN
-     /\ bad' = bad \cup {<<l, t>> : t \in tags}
-     /\ zone' = IF accepted THEN z ELSE UtcZone            \* re-synchronised from the logged outcome
-     /\ info' = info \cup {<<l, t>> : t \in ZoneInfo(z)}
-     /\ buf' = EmptyBuf
+     /\ vBad' = vBad \cup {<<vL, t>> : t \in tags}
+     /\ vZone' = IF accepted THEN z ELSE UtcZone            \* re-synchronised from the logged outcome
+     /\ vInfo' = vInfo \cup {<<vL, t>> : t \in ZoneInfo(z)}
+     /\ vBuf' = EmptyBuf
   ELSE
-     /\ bad' = bad \cup {<<l, t>> : t \in Verdict(e)}
-     /\ zone' = zone
-     /\ info' = info
-     /\ buf' = IF e.op = "findn" /\ Has(e.r, "buf") THEN e.r.buf ELSE buf
-Next == l <= NRec /\ Step(Rec[l]) /\ l' = l + 1
+     /\ vBad' = vBad \cup {<<vL, t>> : t \in Verdict(e)}
+     /\ vZone' = vZone
+     /\ vInfo' = vInfo
+     /\ vBuf' = IF e.op = "findn" /\ Has(e.r, "buf") THEN e.r.buf ELSE vBuf
+Next == vL <= NRec /\ Step(Rec[vL]) /\ vL' = vL + 1
 Spec == Init /\ [][Next]_vars
-Report == (l = NRec + 1) => PrintT(<<"DONE", NRec, ToJson(<<bad, info>>)>>)
+Report == (vL = NRec + 1) => PrintT(<<"DONE", NRec, ToJson(<<vBad, vInfo>>)>>)
 =============================================================================
